@@ -271,8 +271,12 @@ class Job:
         return getattr(mod, self.maker)(**self.cfg)
 
 
+BUDGET = int(os.environ.get("VERIF_TASK_BUDGET", "400"))     # paths per task of a split job before re-queueing
+
+
 def _run_prefix(args):
-    job, prefix, frontier_depth = args
+    job, prefix, frontier_depth = args[:3]
+    budget = args[3] if len(args) > 3 else None
     acc = Acc()
     t0 = time.time()
     try:
@@ -304,7 +308,7 @@ def _run_prefix(args):
 
             res, st, eng = explore(fn, h.base, timeout_ms=h.timeout_ms, fixed_prefix=prefix or (),
                                    frontier_depth=frontier_depth, sliced=h.sliced,
-                                   max_paths=h.max_paths, on_abort=on_abort)
+                                   max_paths=h.max_paths, on_abort=on_abort, budget=budget)
             acc.inc("paths", st["complete"])
             acc.inc("infeasible_paths", st["infeasible"])
             acc.inc("decisions", st["decisions"])
@@ -326,36 +330,46 @@ def _init_worker():
 
 
 def run_jobs(jobs, procs=NPROC, progress=False):
-    """Run all jobs; returns {label: Acc}.  Split jobs are divided by decision prefix."""
+    """Run all jobs; returns {label: Acc}.  Split jobs are divided by decision prefix; a task that exceeds its
+    path budget hands its unexplored alternatives back and they are re-queued (dynamic load balancing)."""
     results = {}
     walls = {}
     t0 = time.time()
     ctx = mp.get_context("fork")
     with ctx.Pool(procs, initializer=_init_worker) as pool:
-        pending = []
+        pending = []          # (job, AsyncResult)
         for j in jobs:
             if not j.split:
-                pending.append(pool.apply_async(_run_prefix, ((j, None, None),)))
-        # frontier phase of the split jobs (in workers as well: it is cheap but not free)
-        fr = []
-        for j in jobs:
-            if j.split:
-                fr.append((j, pool.apply_async(_frontier, ((j, procs),))))
+                pending.append((j, pool.apply_async(_run_prefix, ((j, None, None),))))
+        fr = [(j, pool.apply_async(_frontier, ((j, procs),))) for j in jobs if j.split]
         for j, r in fr:
             label, acc, prefixes, w = r.get()
             results[label] = acc
             walls[label] = w
             for p in prefixes:
-                pending.append(pool.apply_async(_run_prefix, ((j, p, None),)))
-        for r in pending:
-            label, acc, _, w = r.get()
-            if label in results:
-                results[label].merge(acc)
-            else:
-                results[label] = acc
-            walls[label] = walls.get(label, 0.0) + w
-            if progress:
-                print(f"  .. {label}: {acc.c.get('paths', 0)} paths, {w:.1f}s", flush=True)
+                pending.append((j, pool.apply_async(_run_prefix, ((j, p, None, BUDGET),))))
+        while pending:
+            still = []
+            progressed = False
+            for j, r in pending:
+                if not r.ready():
+                    still.append((j, r))
+                    continue
+                progressed = True
+                label, acc, leftovers, w = r.get()
+                if label in results:
+                    results[label].merge(acc)
+                else:
+                    results[label] = acc
+                walls[label] = walls.get(label, 0.0) + w
+                if j.split:
+                    for p in leftovers:
+                        still.append((j, pool.apply_async(_run_prefix, ((j, p, None, BUDGET),))))
+                if progress:
+                    print(f"  .. {label}: {acc.c.get('paths', 0)} paths, {w:.1f}s" + (f", {len(leftovers)} re-queued" if j.split and leftovers else ""), flush=True)
+            pending = still
+            if not progressed:
+                time.sleep(0.05)
     for label, acc in results.items():
         acc.c["cpu_wall_s"] = round(walls.get(label, 0.0), 2)
     return results, time.time() - t0
